@@ -16,7 +16,8 @@
    programs (run/C01Run.v). *)
 From Coq Require Import NArith List Bool.
 Import ListNotations.
-From HV Require Import lib.Harness model.Validity model.Builder spec.BuilderS proofs.BuilderP proofs.BuilderExtP.
+From HV Require Import lib.Harness model.Validity model.Builder spec.BuilderS proofs.BuilderP proofs.BuilderExtP
+  proofs.BuilderFrameP proofs.BuilderRulesP.
 
 (* Proved for ALL programs of the modelled language, with no well-formedness premise: whenever the
    builder calls do not raise, the serialised document satisfies
@@ -40,6 +41,18 @@ Theorem C01_ext_wires_have_order_edges : forall tys p st,
   exec_prog tys p = Ok st -> ExtOrder st.
 Proof. exact exec_prog_ext_order. Qed.
 Print Assumptions C01_ext_wires_have_order_edges.
+
+(* Second pass.  Proved for ALL programs of the modelled language, again with no well-formedness premise:
+     r_io_rows (rule 3)          : the Input and Output rows of every dataflow container equal its inner signature
+                                   (the Output node and its container are completed together by set_outputs);
+     r_root_no_edges (rule 6)    : no edge touches the root;
+     r_no_edge_into_func (rule 13): no value edge enters a function body (the modelled language has no FuncDefn);
+     r_cfg_edges (rule 16)       : vacuous in the modelled language (no control-flow edges). *)
+Theorem C01_builder_io_rows_root_func : forall tys p g,
+  run tys p = Ok g ->
+  r_io_rows g = true /\ r_root_no_edges g = true /\ r_no_edge_into_func tys g = true /\ r_cfg_edges g = true.
+Proof. exact run_io_root_func. Qed.
+Print Assumptions C01_builder_io_rows_root_func.
 
 (* the theorem is not vacuous: a program with a nested region and a non-local wire runs in the model and
    the whole `valid` accepts its document *)
